@@ -53,7 +53,30 @@ def _repo_files(subdirs, exts, repo=None):
     return out
 
 
+class _Lock(object):
+    """Cross-process lock (several checks / audit jobs may start at once on a fresh .work)."""
+    def __init__(self, name):
+        os.makedirs(WORK, exist_ok=True)
+        self.path = os.path.join(WORK, name + ".lock")
+
+    def __enter__(self):
+        import fcntl
+        self.f = open(self.path, "w")
+        fcntl.flock(self.f, fcntl.LOCK_EX)
+        return self
+
+    def __exit__(self, *a):
+        import fcntl
+        fcntl.flock(self.f, fcntl.LOCK_UN)
+        self.f.close()
+
+
 def build_extractor(force=False):
+    with _Lock("extractor"):
+        return _build_extractor(force)
+
+
+def _build_extractor(force=False):
     os.makedirs(os.path.dirname(EXTRACTOR), exist_ok=True)
     stamp = EXTRACTOR + ".sha"
     want = _sha([EXTRACTOR_SRC])
@@ -97,6 +120,11 @@ def _compdb_scratch():
 
 
 def _compdb(REPO, cfg):
+    with _Lock("cfg"):
+        return _compdb_locked(REPO, cfg)
+
+
+def _compdb_locked(REPO, cfg):
     cm = [os.path.join(REPO, "CMakeLists.txt")] + _repo_files(["cmake"], (".cmake", ".txt", ".in"), REPO)
     key = _sha(cm)
     stamp = os.path.join(cfg, ".verif-key")
@@ -172,6 +200,19 @@ def extract(config="real"):
     key = tree_key(units, config)
     outdir = os.path.join(WORK, "facts", key + "-" + config)
     done = os.path.join(outdir, ".done")
+    with _Lock("facts-" + key + "-" + config):
+        cached = _extract_locked(units, config, outdir, done)
+    facts = []
+    for u in units:
+        name = os.path.relpath(u["src"], REPO).replace("/", "__") + ".json"
+        with open(os.path.join(outdir, name)) as f:
+            facts.append(json.load(f))
+    info = {"units": len(units), "config": config, "tree_key": key, "cached": cached,
+            "flags": units[0]["flags"] + CONFIGS[config], "extract_s": round(time.time() - t0, 2)}
+    return facts, info
+
+
+def _extract_locked(units, config, outdir, done):
     cached = os.path.exists(done)
     if not cached:
         shutil.rmtree(outdir, ignore_errors=True)
@@ -195,14 +236,7 @@ def extract(config="real"):
         with open(done, "w") as f:
             f.write("ok")
         _gc(os.path.join(WORK, "facts"), keep=6)
-    facts = []
-    for u in units:
-        name = os.path.relpath(u["src"], REPO).replace("/", "__") + ".json"
-        with open(os.path.join(outdir, name)) as f:
-            facts.append(json.load(f))
-    info = {"units": len(units), "config": config, "tree_key": key, "cached": cached,
-            "flags": units[0]["flags"] + CONFIGS[config], "extract_s": round(time.time() - t0, 2)}
-    return facts, info
+    return cached
 
 
 def _gc(d, keep):
